@@ -346,9 +346,11 @@ class PythonTemplater(RawTemplater):
                         "variables? https://docs.sqlfluff.com/en/stable/"
                         "perma/variables.html".format(err)
                     )
-            except (ValueError, IndexError) as err:
-                # Malformed format strings (e.g. a single "{") raise ValueError
-                # and positional fields (e.g. "{}" or "{0}") raise IndexError.
+            except (ValueError, IndexError, AttributeError) as err:
+                # Malformed format strings (e.g. a single "{") raise ValueError,
+                # positional fields (e.g. "{}" or "{0}") raise IndexError and
+                # attribute lookups on context values (e.g. "{a.b: >4}" where
+                # `a` has no attribute `b`) raise AttributeError.
                 raise SQLTemplaterError(
                     "Failure in Python templating: {}. Is this a valid python "
                     "format string?".format(err)
